@@ -298,9 +298,16 @@ func (e *env) addSrc(src string) {
 	}
 }
 
+// what the code's own parseWeight says about a weight token, asked through route.Parse (since 0b2a40e
+// it rejects NaN and infinities that strconv reads)
+func weightRejected(tok string) bool {
+	_, err := route.Parse(bytes.NewBufferString("route add s a.test/ http://h/ weight " + tok))
+	return err != nil && strings.Contains(err.Error(), "weight value invalid")
+}
+
 func (e *env) addWeight(tok string, inWeightCmd bool) {
 	f, err := strconv.ParseFloat(tok, 64)
-	if err != nil {
+	if err != nil || weightRejected(tok) {
 		e.wlits[tok] = vh.Err(5)
 		return
 	}
@@ -601,12 +608,31 @@ type lookupReq struct {
 	host    string
 	tls     bool
 	uri     string
-	matcher int // 0 prefix, 1 iprefix
+	matcher int // 0 prefix, 1 iprefix, 2 glob
 	globOff bool
+	total   uint64 // the round-robin cursor every route starts this lookup from
+	direct  bool   // Table.LookupHost(host) instead of Table.Lookup
 }
 
 func (q lookupReq) coq() string {
-	return vh.App("Req", hx(q.host), vh.Bool(q.tls), hx(q.uri), vh.N(q.matcher), vh.Bool(q.globOff))
+	return vh.App("Req", hx(q.host), vh.Bool(q.tls), hx(q.uri), vh.N(q.matcher), vh.Bool(q.globOff), vh.N64(q.total), vh.Bool(q.direct))
+}
+
+// a second stream, seeded from the run's seed, for choices added later (so that the inputs the older
+// classes draw from run.Rng stay what they were)
+var auxRng *rand.Rand
+
+var cursors = []uint64{0, 0, 1, 7, 9999, 10000, 1 << 32, 1<<63 - 1, 1 << 63, 1<<64 - 2, 1<<64 - 1}
+
+func globDomain(t route.Table) bool {
+	for _, rs := range t {
+		for _, r := range rs {
+			if strings.ContainsAny(r.Path, "[]{}\\") || !printable(r.Path) {
+				return false
+			}
+		}
+	}
+	return true
 }
 
 var globCache = route.NewGlobCache(1000)
@@ -649,10 +675,24 @@ func doLookup(t route.Table, q lookupReq) (string, bool, string) {
 		req.TLS = tlsState
 	}
 	m := route.Matcher["prefix"]
-	if q.matcher == 1 {
+	switch q.matcher {
+	case 1:
 		m = route.Matcher["iprefix"]
+	case 2:
+		m = route.Matcher["glob"]
 	}
-	p, v := vh.Recover(func() { tg = t.Lookup(req, "", route.Picker["rr"], m, globCache, q.globOff) })
+	for _, rs := range t {
+		for _, r := range rs {
+			r.VerifSetCursor(q.total)
+		}
+	}
+	p, v := vh.Recover(func() {
+		if q.direct {
+			tg = t.LookupHost(q.host, route.Picker["rr"])
+		} else {
+			tg = t.Lookup(req, "", route.Picker["rr"], m, globCache, q.globOff)
+		}
+	})
 	if p {
 		return vh.Panic, true, fmt.Sprint(v)
 	}
@@ -725,7 +765,25 @@ func genLookups(r *rand.Rand, t route.Table, n int) []lookupReq {
 		if q.uri == "" || !printable(q.uri) {
 			q.uri = "/"
 		}
+		q.total = cursors[auxRng.Intn(len(cursors))]
+		if auxRng.Intn(4) == 0 && globDomain(t) {
+			q.matcher = 2
+		}
 		out = append(out, q)
+	}
+	// Table.LookupHost on every built table: a key as written, upper-cased, and one that is no key
+	for i := 0; i < 2; i++ {
+		h := "nokey.test"
+		if len(keys) > 0 && i == 0 {
+			h = keys[auxRng.Intn(len(keys))]
+			if auxRng.Intn(2) == 0 {
+				h = strings.ToUpper(h)
+			}
+		}
+		if !printable(h) && h != "" {
+			continue
+		}
+		out = append(out, lookupReq{host: h, uri: "/", direct: true, total: cursors[auxRng.Intn(len(cursors))]})
 	}
 	return out
 }
@@ -823,9 +881,33 @@ func textCase(run *vh.Run, class, text string, nLook int) {
 			what := outsideWhat("route.NewTable", why, e, impl == vh.Panic)
 			run.Violation(run.NextID(), what, human)
 		}
+		if p, v := vh.Recover(func() { route.ParseAliases(text) }); p {
+			run.Violation(run.NextID(), "route.ParseAliases panicked on an input outside the modelled domain ("+why+"): "+fmt.Sprint(v), human)
+		}
 		return
 	}
 	run.Add(class, vh.App("CBuild", e.coq(), hx(text), impl, vh.List(looks)), human)
+	aliasCount++
+	if aliasCount%5 == 0 && len(text) < 20000 {
+		aliasCase(run, class, e, text)
+	}
+}
+
+var aliasCount int
+
+// route.ParseAliases runs on every candidate text in the update loop, before NewTable
+func aliasCase(run *vh.Run, class string, e *env, text string) {
+	var names []string
+	var err error
+	p, v := vh.Recover(func() { names, err = route.ParseAliases(text) })
+	impl := vh.Ok(strList(names))
+	switch {
+	case p:
+		impl = vh.Panic
+	case err != nil:
+		impl = vh.Err(errKind(err))
+	}
+	run.Add("aliases-"+class, vh.App("CAliases", e.coq(), hx(text), impl), map[string]interface{}{"text": text, "aliases": names, "err": fmt.Sprint(err), "panic": fmt.Sprint(v)})
 }
 
 // a line beyond bufio.Scanner's token limit: either an error or the complete table, never a table
@@ -959,6 +1041,11 @@ func coqDef(d route.RouteDef) (string, bool) {
 
 func defsEnv(defs []route.RouteDef) *env {
 	e := newEnv()
+	defsEnvInto(e, defs)
+	return e
+}
+
+func defsEnvInto(e *env, defs []route.RouteDef) {
 	for _, d := range defs {
 		for _, s := range []string{d.Service, d.Src, d.Dst} {
 			for i := 0; i < len(s); i++ {
@@ -986,7 +1073,6 @@ func defsEnv(defs []route.RouteDef) *env {
 			e.hostClass = true // empty non-nil tag slice: reflect.DeepEqual(nil, []string{}) is outside the model
 		}
 	}
-	return e
 }
 
 func genDefs(r *rand.Rand) ([]route.RouteDef, string) {
@@ -1244,6 +1330,9 @@ func directedWatchScripts(r *rand.Rand, rounds int) []watchScript {
 			mk("watch-equal-length-manual", format, [][2]interface{}{S(base), M("route del svc-a"), M("route del svc-b"), M("route del svc-a"), M("route del svc-x")})
 			// controls: one byte shorter / longer
 			mk("watch-length-controls", format, [][2]interface{}{S(base), S(strings.Replace(base, ":5000/", ":500/", 1)), S(strings.Replace(base, ":5000/", ":50000/", 1)), S(base)})
+			// NaN / infinite weights (rejected by the parser since 0b2a40e) and non-ASCII bytes through the loop
+			mk("watch-nan-inf-weight", format, [][2]interface{}{S(base), S(base + "\nroute add svc-n n.test/ http://10.0.0.9:80/ weight NaN"), S(v1), M("route add svc-i i.test/ http://10.0.0.8:80/ weight -Inf"), M("")})
+			mk("watch-non-ascii", format, [][2]interface{}{S(base), S(base + "\nroute add svc-\xc3\xa4 \xc3\xa4.test/ http://10.0.0.9:80/ tags \"\xe2\x80\xa8\""), S("route add \xff\xfe x.test/ http://h/\x85"), S(v1)})
 			// white space only: the same table, a different text
 			mk("watch-whitespace-only", format, [][2]interface{}{S(base), S(base + "\n"), S(base + " "), S(strings.Replace(base, " ", "  ", 3)), S(strings.Replace(base, "\n", "\r\n", -1)), S(base + "\n\n"), M("\n"), M(" "), M(""), S("\t" + base)})
 		}
@@ -1418,6 +1507,75 @@ func loopCases(run *vh.Run) {
 		jobs = append(jobs, wJob{Kind: "custom", Docs: docs})
 	}
 
+	// sequences of polls WITHOUT a reset in between: the table after each poll is the one of the last
+	// poll NewTableCustom accepted (CCustomPolls; own random stream)
+	type pjob struct {
+		bodies, verdicts []string
+		human            []string
+		env              *env
+	}
+	var pjobs []pjob
+	firstPJob := len(jobs)
+	for k := 0; k < run.Scale(5, 40); k++ {
+		pj := pjob{env: newEnv()}
+		var docs []string
+		for d := 0; d < 6; d++ {
+			switch kind := auxRng.Intn(8); {
+			case kind == 0:
+				docs = append(docs, pick(auxRng, []string{"{", `{"cmd":1}`, `[{"weight":"x"}]`, "[1,2]", "", `"routes"`, "42"}))
+				pj.bodies = append(pj.bodies, vh.None)
+				pj.verdicts = append(pj.verdicts, vh.Err(0))
+				pj.human = append(pj.human, "undecodable")
+			case kind == 1:
+				docs = append(docs, "null")
+				pj.bodies = append(pj.bodies, vh.Some(vh.None))
+				var err error
+				var t route.Table
+				p, _ := vh.Recover(func() { t, err = route.NewTableCustom(nil) })
+				v := vh.Panic
+				if !p && err != nil {
+					v = vh.Err(errKind(err))
+				} else if !p {
+					v = vh.Ok(coqTobs(dumpTable(t)))
+				}
+				pj.verdicts = append(pj.verdicts, v)
+				pj.human = append(pj.human, "null")
+			default:
+				defs, class := genDefs(auxRng)
+				ex := defsEnv(defs)
+				if class == "" || class == "custom-edge-weight" || ex.excluded() != "" {
+					defs, class = []route.RouteDef{{Cmd: route.RouteAddCmd, Service: fmt.Sprintf("s%d", d), Src: fmt.Sprintf("p%d.test/", d), Dst: "http://h/"}}, "custom-valid"
+				}
+				defsEnvInto(pj.env, defs)
+				if auxRng.Intn(2) == 0 {
+					docs = append(docs, sparseJSON(defs))
+				} else {
+					docs = append(docs, fullJSON(defs))
+				}
+				var terms []string
+				for _, x := range defs {
+					t, _ := coqDef(x)
+					terms = append(terms, t)
+				}
+				pj.bodies = append(pj.bodies, vh.Some(vh.Some(vh.List(terms))))
+				cp := append([]route.RouteDef{}, defs...)
+				var err error
+				var t route.Table
+				p, _ := vh.Recover(func() { t, err = route.NewTableCustom(&cp) })
+				v := vh.Panic
+				if !p && err != nil {
+					v = vh.Err(errKind(err))
+				} else if !p {
+					v = vh.Ok(coqTobs(dumpTable(t)))
+				}
+				pj.verdicts = append(pj.verdicts, v)
+				pj.human = append(pj.human, class+": "+fmt.Sprintf("%+v", defs))
+			}
+		}
+		pjobs = append(pjobs, pj)
+		jobs = append(jobs, wJob{Kind: "custom", Docs: docs})
+	}
+
 	staleJob := len(jobs)
 	jobs = append(jobs, wJob{Kind: "custom", Docs: []string{
 		`!reset![{"cmd":"route add","service":"svc-a","src":"a.test/","dst":"http://10.0.0.1:80/"}]`,
@@ -1540,9 +1698,33 @@ func loopCases(run *vh.Run) {
 		}
 		if why := e.excluded(); why != "" {
 			run.Exclude(why)
+			// outside the model, but the process must survive the history and keep answering
+			for _, hline := range human {
+				if strings.Contains(hline, "PROCESS DEAD") {
+					run.Violation(run.NextID(), "the real watchBackend process died on a history outside the modelled domain ("+why+")", sample)
+					break
+				}
+			}
 			continue
 		}
 		run.Add(sc.class, vh.App("CWatch", e.coq(), strList(sc.texts), vh.List(evs), vh.List(cands), vh.List(impl)), sample)
+	}
+	for k, pj := range pjobs {
+		ji := firstPJob + k
+		ls := lines[ji]
+		var impl []string
+		for d := range pj.bodies {
+			if d < len(ls) && !ls[d].Stuck {
+				impl = append(impl, vh.Some(coqTobs(ls[d].Table)))
+			} else {
+				impl = append(impl, vh.None)
+			}
+		}
+		sample := map[string]interface{}{"polls": pj.human, "observed_polls": len(ls)}
+		if crashLog[ji] != "" {
+			sample["process"] = crashLog[ji]
+		}
+		run.Add("custom-backend-poll-sequence", vh.App("CCustomPolls", pj.env.coq(), vh.List(pj.bodies), vh.List(pj.verdicts), vh.List(impl)), sample)
 	}
 	for k, cj := range cjobs {
 		ji := len(scripts) + k
@@ -1715,6 +1897,10 @@ func schedCases(run *vh.Run) {
 				human = append(human, fmt.Sprintf("load r%d", rd))
 			default:
 				q := lookupReq{host: pick(r, []string{"a.test", "b.test", "A.TEST:80", "x.test"}), uri: pick(r, []string{"/", "/foo/x", "/foo/bar/x", "/api", "/zzz"}), globOff: r.Intn(4) == 0}
+				q.total = cursors[auxRng.Intn(len(cursors))]
+				if auxRng.Intn(6) == 0 {
+					q.direct, q.host, q.uri = true, pick(auxRng, []string{"a.test", "B.TEST", "", "zzz.test"}), "/"
+				}
 				o, _, _ := doLookup(local[rd], q)
 				acts = append(acts, vh.App("SLook", vh.Nat(rd), q.coq()))
 				impl = append(impl, o)
@@ -1842,6 +2028,7 @@ func main() {
 	raceReexec()
 	run := vh.Start("C02")
 	theRun = run
+	auxRng = rand.New(rand.NewSource(run.Seed*104729 + 11))
 	buildCases(run)
 	customCases(run)
 	schedCases(run)
